@@ -275,7 +275,7 @@ func c18run(watch bool) {
 		zzverif.Quiesce()
 		zzverif.Assert(nNew == 1, "C18 OnNewConfig did not fire for a file change after the entry point returned")
 	}
-	if !watch && zzverif.Symbolic() && wflag.wa != nil {
+	if !watch && wflag.wa != nil {
 		// the watching flag source reports a new value after the entry point returned: it is
 		// stacked on top, verified, and announced through the callbacks handed to ez
 		before := nNew
